@@ -376,7 +376,25 @@ Proof.
     intros Hc. cinv_destruct Hc. unfold cinv. simpl.
     refine (conj A1 (conj A2 (conj _ (conj _ (conj _ (conj A6 (conj A7 (conj A8 _)))))))); intros; lia.
   - destruct (eo_mode (lookup no_eora ora c) =? 1); [exact Hi|].
-    apply inv_stop with (r := r); [exact Hi | exact Hg | lia].
+    assert (Hsent : forall n, inv (upd s c (fun r0 => set_sent n r0)) /\
+                              get (upd s c (fun r0 => set_sent n r0)) c = Some (set_sent n r)).
+    { intros n. split.
+      - apply inv_upd_same with (r := r); [exact Hi | intros [] | exact Hg | intros r'; reflexivity | reflexivity | reflexivity |].
+        intros Hc. exact Hc.
+      - apply get_upd_same; [intros r0 Hr0; exact Hr0 | exact Hg]. }
+    destruct (p_pending (c_proto r) <=? Z.max 0 (eo_mode (lookup no_eora ora c) - 2)).
+    + apply inv_upd_same with (r := r); [exact Hi | intros [] | exact Hg | intros r'; reflexivity | reflexivity | reflexivity |].
+      intros Hc. cinv_destruct Hc. unfold cinv. simpl.
+      refine (conj A1 (conj A2 (conj _ (conj _ (conj _ (conj A6 (conj A7 (conj A8 _)))))))); intros; lia.
+    + set (j := Z.max 0 (eo_mode (lookup no_eora ora c) - 2)).
+      assert (Hs1 : inv (upd s c (fun r0 => set_sent (c_sent r0 + j) r0)) /\
+                    get (upd s c (fun r0 => set_sent (c_sent r0 + j) r0)) c = Some (set_sent (c_sent r + j) r)).
+      { split.
+        - apply inv_upd_same with (r := r); [exact Hi | intros [] | exact Hg | intros r'; reflexivity | reflexivity | reflexivity |].
+          intros Hc. exact Hc.
+        - apply (get_upd_same s c (fun r0 => set_sent (c_sent r0 + j) r0) r); [intros r0 Hr0; exact Hr0 | exact Hg]. }
+      destruct Hs1 as [Hi1 Hg1].
+      apply inv_stop with (r := set_sent (c_sent r + j) r); [exact Hi1 | exact Hg1 | simpl; lia].
 Qed.
 
 Lemma inv_fold : forall (f : state -> Z -> state) l s, (forall s c, inv s -> inv (f s c)) -> inv s -> inv (fold_left f l s).
